@@ -3,10 +3,10 @@
    Vocabulary: Spec/PrintSpec.v (accepted, printed, normal_form, same_report and their executable
    versions).  Model: Model/JPrinter.v (printer.go, journal.Print), Model/ToModel.v (syntax tree ->
    model directives, [reparse] = parser + ToModel), Model/Parser.v, Model/Cli.v.
-   [print_cmd] is knut print as pinned; [print_cmd_fixed] is knut print after
-   findings/C09-multi-assertion.patch (JPrinter.print_day_fixed).
+   [print_cmd_pinned] is knut print as pinned; [print_cmd] is knut print after
+   findings/C09-multi-assertion.patch (JPrinter.print_day).
 
-   THE PROPERTY, in full (for pr = print_cmd_fixed l; it is FALSE for pr = print_cmd l, see
+   THE PROPERTY, in full (for pr = print_cmd l; it is FALSE for pr = print_cmd_pinned l, see
    C09_multi_assertion_refuted):
 
      C09_accepted     : forall l ds text, lex_ok ds -> printed pr ds text ->
@@ -63,16 +63,16 @@ Open Scope Z_scope.
    findings/C09-multi-assertion.md: a multi-balance assertion followed by another assertion of the
    same day. *)
 Theorem C09_multi_assertion_refuted :
-  exists ds text, accepted true ds /\ accepted false ds /\ printed (print_cmd true) ds text /\
-                  printed (print_cmd false) ds text /\ reparse text = MErr e_syntax.
+  exists ds text, accepted true ds /\ accepted false ds /\ printed (print_cmd_pinned true) ds text /\
+                  printed (print_cmd_pinned false) ds text /\ reparse text = MErr e_syntax.
 Proof. exact multi_assertion_refuted. Qed.
 Print Assumptions C09_multi_assertion_refuted.
 
 (* The repaired printer on the same journal: the output is read back, accepted, and printing it
    again reproduces it byte for byte. *)
 Theorem C09_multi_assertion_fixed :
-  printed (print_cmd_fixed true) w_journal w_text_fixed /\
-  normal_form_b (print_cmd_fixed true) w_text_fixed = true.
+  printed (print_cmd true) w_journal w_text_fixed /\
+  normal_form_b (print_cmd true) w_text_fixed = true.
 Proof. exact multi_assertion_fixed_ok. Qed.
 Print Assumptions C09_multi_assertion_fixed.
 
@@ -82,10 +82,10 @@ Print Assumptions C09_multi_assertion_fixed.
    a close.  Accepted; the repaired printer's output is a normal form with the same monthly report;
    the pinned printer's output is not. *)
 Theorem C09_example :
-  accepted true x_journal /\ printed (print_cmd_fixed true) x_journal x_text /\
-  normal_form_b (print_cmd_fixed true) x_text = true /\
+  accepted true x_journal /\ printed (print_cmd true) x_journal x_text /\
+  normal_form_b (print_cmd true) x_text = true /\
   same_report_b x_cfg x_journal x_text = true /\
-  normal_form_b (print_cmd true) (text_of (print_cmd true x_journal)) = false.
+  normal_form_b (print_cmd_pinned true) (text_of (print_cmd_pinned true x_journal)) = false.
 Proof. exact example_roundtrip. Qed.
 Print Assumptions C09_example.
 
@@ -139,8 +139,8 @@ Print Assumptions C09_accepted_partial.
 
 (* C09_idem, partial: printing the denoted journal gives the same bytes (both printers) *)
 Theorem C09_idem_partial : forall l ss text,
-  (printed (print_cmd l) ss text -> printed (print_cmd l) (denote ss) text) /\
-  (printed (print_cmd_fixed l) ss text -> printed (print_cmd_fixed l) (denote ss) text).
+  (printed (print_cmd_pinned l) ss text -> printed (print_cmd_pinned l) (denote ss) text) /\
+  (printed (print_cmd l) ss text -> printed (print_cmd l) (denote ss) text).
 Proof. exact printed_denote. Qed.
 Print Assumptions C09_idem_partial.
 
@@ -162,13 +162,13 @@ Print Assumptions C09_denote_idem.
    multi-balance assertion is followed by another assertion of the same day: the repair changes
    nothing else, and whatever holds of the repaired printer holds of the pinned one there. *)
 Theorem C09_printers_agree : forall l ds b,
-  load ds = COk b -> no_multi_then_more (b_days b) -> print_cmd_fixed l ds = print_cmd l ds.
+  load ds = COk b -> no_multi_then_more (b_days b) -> print_cmd l ds = print_cmd_pinned l ds.
 Proof. exact print_cmd_fixed_same. Qed.
 Print Assumptions C09_printers_agree.
 
 (* print checks first: what was printed had been accepted *)
 Theorem C09_printed_accepted : forall l ds text,
-  (printed (print_cmd l) ds text -> accepted l ds) /\
-  (printed (print_cmd_fixed l) ds text -> accepted l ds).
+  (printed (print_cmd_pinned l) ds text -> accepted l ds) /\
+  (printed (print_cmd l) ds text -> accepted l ds).
 Proof. exact printed_accepted_both. Qed.
 Print Assumptions C09_printed_accepted.
